@@ -116,5 +116,6 @@ class Clip(Contract):
                 x0 = xs[0]
                 if not (x0 < val_max) or not (x0 > val_min):
                     dt = P.np.dtype('int64')
-            return P.arr([as_kind(int_value(v), dt) for v in el], dtype=dt, shape=a.shape)
+            r = P.arr(el, dtype=object, shape=a.shape).astype(dt)      # what asanyarray(results, dtype=otype) does
+            return r
         return {(P.utils, 'clip'): clip}
